@@ -13,6 +13,8 @@
 (***************************************************************************)
 EXTENDS TraceKit, Cli, Encoder
 
+Ch == INSTANCE Chain
+
 VARIABLES l
 vars == <<l>>
 
@@ -62,6 +64,10 @@ BerLineOK(ln, k, target, countsTarget) ==
   /\ Abs((ln.ber_n \div 1000) * (k * ln.frames) - ln.berr * 1000000) <= 6000 * ln.berr + k * ln.frames
 BerEvOK(ev) ==
   /\ ev.o = "ok" /\ Success(ev)
+  \* the parameter block: k, codeword size, frame size counted AFTER puncturing, rate = k / N (3 decimals)
+  /\ ev.d_k = ev.k /\ ev.d_ncw = ev.ncw
+  /\ LET P == [t \in 1..Len(ev.pat) |-> ev.pat[t] = 1] IN ev.d_n * Len(ev.pat) = ev.ncw * Ch!Trues(P)
+  /\ Abs(ev.d_rate_m * ev.d_n - ev.k * 1000) <= ev.d_n
   /\ Len(ev.lines) = ev.npoints                                                      \* one result line per requested Eb/N0
   /\ \A t \in 1..Len(ev.lines) : ev.lines[t].ebn0_c = -400 + 100 * (t - 1) /\ BerLineOK(ev.lines[t], ev.k, ev.target, TRUE)
   /\ (ev.bch > 0 => Len(ev.lines_ldpc) = ev.npoints
